@@ -40,7 +40,7 @@ type VC struct {
 	fresh_      []*freshObj
 	leakAt      map[ssa.Instruction][]*freshObj
 	hinted      map[string]bool
-	letTypes    map[string]*Val // a binding of each ghost let (for its type), once seen
+	letTypes    map[string]*Val   // a binding of each ghost let (for its type), once seen
 	guardOf     map[string]string // guarded field heap name -> mutex field heap name
 	guards      map[string][]string
 }
@@ -61,7 +61,7 @@ type Obligation struct {
 	File   string
 	Line   int
 	Goals  []Goal
-	Mark   int // number of asserts visible
+	Mark   int         // number of asserts visible
 	Vars   [][2]string // name, term to evaluate in a model
 	// results
 	Status  string // proved, refuted, unknown, error
@@ -736,7 +736,7 @@ func (fr *Frame) enterLoop(li *loopInfo, reach Term) {
 				pat = pat[:i]
 			}
 		scan:
-			for lb := range li.blocks {
+			for _, lb := range sortedBlocks(li.blocks) {
 				for _, in := range lb.Instrs {
 					ci, ok := in.(ssa.CallInstruction)
 					if !ok {
@@ -780,7 +780,8 @@ func (fr *Frame) enterLoop(li *loopInfo, reach Term) {
 		frames := fr.loopFrames(li)
 		pre := fr.cur
 		fr.cur = fr.cur.Havoc(mod, fmt.Sprintf("L%d", li.ordinal))
-		for name, refs := range frames {
+		for _, name := range sortedKeysOf(frames) {
+			refs := frames[name]
 			if mod[name] {
 				fr.assertLoopFrame(name, refs, pre, fr.cur)
 			}
@@ -804,7 +805,7 @@ func (fr *Frame) enterLoop(li *loopInfo, reach Term) {
 func (fr *Frame) loopWrites(li *loopInfo) (map[string]bool, bool) {
 	mod := map[string]bool{}
 	all := false
-	for b := range li.blocks {
+	for _, b := range sortedBlocks(li.blocks) {
 		for _, in := range b.Instrs {
 			switch x := in.(type) {
 			case *ssa.Store:
@@ -995,7 +996,7 @@ func (fr *Frame) mergeGhosts(preds []*ssa.BasicBlock, conds []Term) map[string]*
 		}
 	}
 	vc := fr.vc
-	for name := range names {
+	for _, name := range sortedKeys(names) {
 		var vals []*Val
 		same := true
 		for _, p := range preds {
